@@ -138,6 +138,24 @@ class Runner:
         acks = len(re.findall(r"^ack \d+$", p.stdout.decode(), re.M))
         return acks, p.returncode
 
+    def follow_up(self):
+        """the next start of every DAG of the case in the surviving directory: RemoveOld (as agent.setupDatabase does, with a
+        retention no file has reached) and one more recorded run; then all queries again"""
+        c = self.c
+        tmax = max([o.get("t", 0) for o in c["ops"] + c["victim"]] + [0])
+        ops = []
+        for d in range(len(c["dags"])):
+            ops += [{"op": "removeOld", "d": d, "days": 3650},
+                    {"op": "open", "k": 900 + d, "d": d, "t": tmax + 60000 * (d + 1), "req": "f0110w0p-%04d" % d},
+                    {"op": "write", "k": 900 + d, "req": "f0110w0p-%04d" % d, "p": "pfollow%d" % d, "st": 4},
+                    {"op": "close", "k": 900 + d}]
+        ff = os.path.join(os.path.dirname(self.root), "follow.json")
+        json.dump(dict(c, ops=ops), open(ff, "w"))
+        p = subprocess.run([self.binp, "exec", self.root, ff], env=self.env, stdout=subprocess.PIPE, stderr=subprocess.PIPE, timeout=60)
+        if p.returncode != 0:
+            return None
+        return self.query()
+
     def query(self):
         p = subprocess.run([self.binp, "query", self.root, self.casef], env=self.env, stdout=subprocess.PIPE, stderr=subprocess.PIPE, timeout=60)
         if p.returncode != 0:
@@ -268,6 +286,24 @@ def one_case(binp, c, work, tier):
             seq.append((nm, k, wfile, acks, rc, q, sizes))
             obs.append({"point": "%s#%d" % (nm, k), "acks": acks, "rc": rc, "canon": canon_observed(R.root, c, q["files"]),
                         "verdicts": judge(c, acks, q), "torn": 0})
+            # "afterwards" does not end with the first query: the next run of the DAG starts as usual (retention clean-up
+            # with a retention nothing has reached, a new recorded run) - every run that was found right after the kill is
+            # still found, with the same status
+            if tier == "thorough" or len(obs) % 2 == 0:
+                q2 = R.follow_up()
+                if q2 is not None:
+                    v2 = []
+                    if q2.get("panic"):
+                        v2.append(("queries-crash-after-the-next-run", q2["panic"][:200]))
+                    else:
+                        f1, f2 = q["answer"].get("find") or {}, q2["answer"].get("find") or {}
+                        for key, was in sorted(f1.items()):
+                            now = f2.get(key)
+                            if not was.startswith("!") and now != was:
+                                v2.append(("run-found-after-the-kill-lost-or-changed-once-the-next-run-started",
+                                           "look-up %s answered %r right after the kill and %r after a retention clean-up (3650 days) and one more recorded run" % (key, was, now)))
+                                break
+                    obs.append({"point": "%s#%d+next-run" % (nm, k), "acks": acks, "rc": rc, "canon": None, "verdicts": v2, "torn": 0, "followup": 1})
         # final (no kill)
         R.restore()
         p = subprocess.run([binp, "exec", R.root, R.victf], env=R.env, stdout=subprocess.PIPE, stderr=subprocess.PIPE, timeout=60)
@@ -400,6 +436,9 @@ def run(chk, replay):
             for sig, detail in ob["verdicts"]:
                 chk.violation("C07:%s:%s" % (sig, c["kind"]), "%s — kill at %s of victim %s after %d acknowledged ops" % (
                     detail, ob["point"], c["kind"], ob["acks"]), {"case": c, "point": ob["point"], "acks": ob["acks"]})
+            if ob.get("followup"):
+                stat["next_run_after_kill"] = stat.get("next_run_after_kill", 0) + 1
+                continue            # (judged above; the model's crash states describe the directory right after the kill)
             # correspondence: the surviving directory is one of the model's crash states of the op in flight
             st = states.get(c["id"], [])
             a = ob["acks"]
